@@ -474,13 +474,18 @@ def InlineVerilogCommnent(obj:Logic):
     
 def BodyReg(obj:Logic):
     clkname = getObjectClockDriver(obj).name
-    str = "reg "+getWidthInfo(obj.q) + " rq = {};\n".format(obj.reset_value)
+    reset_value = obj.reset_value
+    if (reset_value < -(1<<31)) or (reset_value >= (1<<31)):
+        # an unsized literal is only guaranteed to hold 32 bits, so size it explicitly
+        w = obj.q.getWidth()
+        reset_value = "{}'d{}".format(w, reset_value & ((1<<w)-1))
+    str = "reg "+getWidthInfo(obj.q) + " rq = {};\n".format(reset_value)
     str += "always @(posedge {})\n".format(clkname)
     close = ""
     if not(obj.r is None):
         str += "if (r == 1)\n"
         str += "begin\n"
-        str += "   rq <= {};\n".format(obj.reset_value)
+        str += "   rq <= {};\n".format(reset_value)
         str += "end\n";
         str += "else\n";
         str += "begin\n";
